@@ -352,12 +352,23 @@ def run_batch(machine, tier, verif_seed, workers, runs_override=None, want_diges
         arms = [(a, max(1, int(n * scale))) for a, n in arms]
     total = sum(n for _, n in arms)
     slice_mod = machine.hist_slice(tier) if hasattr(machine, "hist_slice") else 1
-    n_chunks = max(1, min(total, workers * 12))
-    bounds = [(total * c) // n_chunks for c in range(n_chunks + 1)]
+    # chunk bounds never depend on the worker count (a chunk is the unit of process isolation and
+    # of `prelude` replays): 192 chunks over the batch, and arms that talk to a second
+    # interpreter (slow, few runs) are cut into 16 chunks of their own so they run in parallel
+    slow = set(getattr(machine, "SLOW_ARMS", ()))
+    bounds = [0]
+    acc = 0
+    for a, n in arms:
+        if n <= 0:
+            continue
+        k = min(n, 16) if a in slow else max(1, min(n, (192 * n) // max(total, 1)))
+        for c in range(1, k + 1):
+            bounds.append(acc + (n * c) // k)
+        acc += n
     chunk_guard = float(os.environ.get("VERIF_CHUNK_GUARD_S", "3000" if tier == "thorough" else "900"))
     jobs = [
         (verif_seed, tier, arms, bounds[c], bounds[c + 1], slice_mod, want_digests, chunk_guard)
-        for c in range(n_chunks)
+        for c in range(len(bounds) - 1)
         if bounds[c + 1] > bounds[c]
     ]
     merged = None
@@ -611,7 +622,7 @@ def write_evidence(machine, tier, verif_seed, merged, n_reported, known_matched,
                 "last_run_seed": merged["last_seed"],
             },
             "faults_fired": dict(sorted(merged["faults"].items())),
-            "probes": dict(sorted(merged["probes"].items())),
+            "probes": dict(sorted({**{k: 0 for k in getattr(machine, "EXPECTED_PROBES", [])}, **merged["probes"]}.items())),
             "states_reached": {"count": len(merged["states"]), "measure": machine.STATE_MEASURE + ("; counting stopped at the 3,000,000 cap (lower bound)" if merged.get("states_capped") else "")},
             "seam_engagement": dict(sorted(merged["seams"].items())),
             "real_components": machine.REAL,
